@@ -6,7 +6,7 @@ From Verif Require Export GoSem Bytes Model Exact Versioned.
 Import ListNotations.
 Local Open Scope nat_scope.
 
-Inductive skind := SLocal | SDeliver | SNoop | SVersioned.
+Inductive skind := SLocal | SDeliver | SNoop | SVersioned | SLocalQ.
 Inductive fobs := OReg (v : list Z) | OCtr (v : Z).
 
 Record sstep := mkS {
@@ -51,6 +51,7 @@ Definition run_step (u : universe) (rs : list rstate) (st : sstep) : list rstate
   let c := Z.to_nat (s_cid st) in
   match s_kind st with
   | SVersioned => (rs, check_row (r_vs (versioned u c)) (s_row st))
+  | SLocalQ => (set_nth (s_node st) (local u s c) rs, local_ok u s c)   (* written inside a transaction: state not observable yet *)
   | _ =>
   let '(s', pre) :=
     match s_kind st with
